@@ -76,10 +76,10 @@ RT = {
 }
 
 RT_RULE = {
-    "C01": "writer programs from G-PROGRAM (seeded; every 2nd case sweeps the section-start residue mod 1020 over all 255 four-aligned values, every 7th forces an integer bit width 0..64); non-trivial = finalized program with >=1 point cloud holding >=1 point; distinct = distinct program shapes (hash of item kinds, prototypes, point counts, blob lengths) among the non-trivial programs",
-    "C04": "metadata-heavy programs (every setter present/absent independently, strings from 12 XML character classes (incl. markup-heavy fragments with hundreds of unclosed tags), wild floats, all image kinds); non-trivial = finalized program that opened; distinct = number of distinct (field, string class) and (field, present/absent) and image-kind cells actually exercised",
-    "C06": "blob-heavy programs (lengths from boundary table and random up to 5 pages; thorough: first blob length = case index mod 2101, i.e. every length 0..2100); non-trivial = blob read back and compared; distinct = distinct (blob length mod 1020) x distinct start positions mod 1020 observed, counted as distinct lengths residues + distinct position residues",
-    "C10": "hostile-caller programs: rule-breaking/degenerate prototypes (16 classes), unfitting value vectors (arity, type, out-of-range at every width), abandoned writers, bad extension names; non-trivial = every program (each carries hostile elements or is a control); distinct = distinct program shapes incl. which calls were rejected",
+    "C01": "writer programs from G-PROGRAM (seeded; every 2nd case sweeps the section-start residue mod 1020 over all 255 four-aligned values, every 7th forces an integer bit width 0..64, every 157th widens a prototype by 300-3000 narrow extension attributes over 2-5 packets; blob/image sources deliver their bytes in pieces); non-trivial = finalized program with >=1 point cloud holding >=1 point; distinct = distinct program shapes (hash of item kinds, prototypes, point counts, blob lengths) among the non-trivial programs",
+    "C04": "metadata-heavy programs (every setter present/absent independently, strings from 12 XML character classes (incl. markup-heavy fragments with hundreds of unclosed tags), wild floats, all image kinds; intensity/colour limits set, replaced or removed by the caller incl. integers beyond 2^53 are judged as metadata too); non-trivial = finalized program that opened; distinct = number of distinct (field, string class) and (field, present/absent) and image-kind cells actually exercised",
+    "C06": "blob-heavy programs (lengths from boundary table and random up to 5 pages; thorough: first blob length = case index mod 2101, i.e. every length 0..2100; data sources that deliver in pieces (short first piece, 7-byte pieces, alternating); after each blob a caller's writer that accepts only k bytes: Ok(n) only if n bytes arrived, and the blob reads intact afterwards); non-trivial = blob read back and compared; distinct = distinct (blob length mod 1020) x distinct start positions mod 1020 observed, counted as distinct lengths residues + distinct position residues",
+    "C10": "hostile-caller programs: rule-breaking/degenerate prototypes (17 classes, incl. prototypes of 1200..66000 records that are wider than a data packet), a device that is not empty, an empty file GUID, unfitting value vectors (arity, type, out-of-range at every width), abandoned writers, bad extension names; non-trivial = every program (each carries hostile elements or is a control); distinct = distinct program shapes incl. which calls were rejected",
     "C14": "bounds-focused programs (non-NaN; constant/increasing/decreasing/extremes-apart/sign-mixed sequences, interleaved rejected points); non-trivial = finalized program with >=1 point cloud holding >=1 point; distinct = distinct program shapes",
 }
 
@@ -160,7 +160,7 @@ GEN = {
                                      "fault_cells": {k: v for k, v in r.cover.items() if k.startswith(("writer-fault:", "reader-fault:", "writer-fault-mid-transfer:", "reader-fault-mid-transfer:"))}, "exhaustive": False, "exhaustive_part": "every device operation index of every generated program and read suite"},
                 assumptions=["errors swallowed in Drop have no return value and are exempt", "a read returning Ok(0) while data exists violates the Read contract and is not injected; write returning Ok(0) is", "a failing device operation itself transfers nothing; partial progress before the failure comes from the preceding short transfers of stage (c)"]),
     "C17": dict(workload="history", extra=[], quick=(40000, 60), thorough=(2000000, 900), both=False,
-                rule="files with 2-4 point clouds and 2-4 blobs (intact / one damaged data page / damaged section header / damaged blob header); random sequences of 5..40 operations {raw iterate k in {0,1,half,all+2} then drop, simple iterate k with 4 option vectors, blob, descriptors} on ONE reader over a device that in half the cases delivers short reads and in half the cases returns one transient error; every result is compared with the memoised result of the same operation on a fresh reader; non-trivial = sequence executed; distinct = distinct (sequence, damage class) identities",
+                rule="files with 2-4 point clouds (in a third of the files all with the same GUID) and 2-4 blobs (intact / one damaged data page / damaged section header / damaged blob header); random sequences of 5..40 operations {raw iterate k in {0,1,half,all+2} then drop, simple iterate k with 4 option vectors, blob, descriptors} on ONE reader over a device that in half the cases delivers short reads and in half the cases returns one transient error; every result is compared with the memoised result of the same operation on a fresh reader; non-trivial = sequence executed; distinct = distinct (sequence, damage class) identities",
                 distinct=lambda r: len(r.nums.get("sequence_identity", ())), evaluations=lambda r: r.stats.get("sequences", 0),
                 extra_cov=lambda r: {"operations": r.stats.get("operations", 0), "ops_failed": r.stats.get("ops_failed", 0), "ops_equal_after_earlier_failure": r.stats.get("ops_equal_after_earlier_failure", 0), "ops_hit_by_transient_device_error": r.stats.get("ops_with_transient_error", 0), "op_kind_pairs": {k[5:]: v for k, v in r.cover.items() if k.startswith("pair:")}},
                 assumptions=["'earlier operations failed' includes failure by a transient device error", "the operation that itself suffers the injected device error is not compared (C16 requires it to fail)"]),
@@ -245,14 +245,14 @@ def c07(prop, tier, seed):
                     res.inconclusive.append({"why": "valgrind run failed to execute", "rc": p.returncode, "stderr": p.stderr[-400:]})
     finally:
         cleanup(wd)
-    rule = ("one case = (small generated file of 2..12 pages, page): EVERY single-bit flip of the page (8192, payload and checksum bytes) plus sampled 2-/3-bit flips (same page and across pages), bursts <=32 bits at every bit phase and random overwrites; on each altered image: validate_crc must fail (guaranteed classes), E57Reader::new either fails or reports exactly the intact descriptors/header/xml, then a shuffled operation sequence with repetitions (raw, simple, blobs, descriptors) where each result is Err or equal to the intact file's; stored checksums are compared with an independent bitwise CRC-32C; every iterator is called again up to three times after an Err and every Ok item (before or after an error) must be the intact file's item at that position; every file is also re-paged to 1023/1022/1021/517/514/259/2048-byte pages with the independent CRC and validate_crc / raw_xml must accept it and detect a flipped bit in a page tail (payload lengths that are not a multiple of 4); the same seeded workload runs on the built-in and on the crc32c back-end and file/verdict digests must agree; "
+    rule = ("one case = (small generated file of 2..12 pages, page): EVERY single-bit flip of the page (8192, payload and checksum bytes) plus sampled 2-/3-bit flips (same page and across pages), bursts <=32 bits at every bit phase, random overwrites and structured forgeries of the checksum field (CRC-32C little-endian, complemented, bit-reversed, rotated by 8/16/24, byte pairs swapped, CRC-32/IEEE in both byte orders, all zero, all ones; on the intact payload and on a payload with one flipped bit); on each altered image: validate_crc must fail (guaranteed classes), E57Reader::new either fails or reports exactly the intact descriptors/header/xml, then a shuffled operation sequence with repetitions (raw, simple, blobs, descriptors) where each result is Err or equal to the intact file's; stored checksums are compared with an independent bitwise CRC-32C; every iterator is called again up to three times after an Err and every Ok item (before or after an error) must be the intact file's item at that position; every file is also re-paged to 1023/1022/1021/517/514/259/2048-byte pages with the independent CRC and validate_crc / raw_xml must accept it and detect a flipped bit in a page tail (payload lengths that are not a multiple of 4); the same seeded workload runs on the built-in and on the crc32c back-end and file/verdict digests must agree; "
             "non-trivial = altered image; distinct = pages flipped exhaustively (each contributes 8192 distinct images)")
     distinct = res.stats.get("pages_flipped_exhaustively", 0)
     extra = dict(notes)
     extra.update({"variants": res.stats.get("variants", 0), "variants_open_accepted": res.stats.get("variants_open_accepted", 0), "ops_err": res.stats.get("ops_err", 0), "ops_equal": res.stats.get("ops_equal", 0),
                   "repeated_after_failure": res.stats.get("repeated_after_failure", 0), "pages_crc_checked_against_independent_crc": res.stats.get("pages_crc_checked", 0), "exhaustive": False,
                   "exhaustive_part": "all 8192 single-bit flips of every page of every generated file"})
-    assumptions = ["raw_xml() is documented to use the header fields without validation (salvage tool) and is not part of the 'Err or equal' oracle", "detection is asserted only inside CRC-32C's guaranteed classes (<=3 bits per page, one burst <=32 bits); for random overwrites only 'Err or equal'", "header() is among the compared results"]
+    assumptions = ["raw_xml() is documented to use the header fields without validation (salvage tool) and is not part of the 'Err or equal' oracle", "detection is asserted only inside CRC-32C's guaranteed classes (<=3 bits per page, one burst <=32 bits); for random overwrites only 'Err or equal'; a forged checksum field differs from the big-endian CRC-32C of the page content by construction, so refusing it needs no detection guarantee", "header() is among the compared results"]
     return finish(prop, tier, seed, level(prop), res, rule, distinct, res.stats.get("variants", 0), assumptions, t0, extra)
 
 
@@ -506,7 +506,7 @@ def c03(prop, tier, seed):
     finally:
         cleanup(wd)
     rule = ("random scenes (1-3 point clouds with every type/width, images of all kinds, standalone blobs, wild strings) encoded by the independent Python encoder in an exotic legal layout (random/unequal/run-ahead splits of every attribute stream incl. empty streams and values straddling packets; index and ignored packets before/between/after data packets; trailing index packet with index offset; sections in shuffled order with no/small/page-edge/random padding; XML before or after the sections, and when the XML comes first the last section ending exactly on / 4 bytes before / 4 bytes after the end of the last page's payload; "
-            "lexical variants: attribute order and quote style, CDATA vs escaped vs numeric character references vs mixed, empty-element tags, whitespace/indentation/comments between elements, XML declaration variants, trailing spaces, omitted optional type attributes, shuffled element order inside structures) and, as control, in a plain layout; the crate's reader dumps everything it reports and the dump is compared with the scene; non-trivial = file compared; distinct = distinct scenes x 2 layouts")
+            "lexical variants: the E57 namespace as default namespace or bound to a prefix, with / without a final newline, attribute order and quote style, CDATA vs escaped vs numeric character references vs mixed, empty-element tags, whitespace/indentation/comments between elements, XML declaration variants, trailing spaces, omitted optional type attributes, shuffled element order inside structures) and, as control, in a plain layout; the crate's reader dumps everything it reports and the dump is compared with the scene; non-trivial = file compared; distinct = distinct scenes x 2 layouts")
     extra = {"files_compared": res.stats.get("files_compared", 0), "layout_features_exercised": {k: v for k, v in sorted(cover.items())}}
     assumptions = ["layouts are restricted to what the format defines (continuous byte stream per attribute, packet length incl. header and padding, reserved bytes zero) and the encoder is calibrated: e57ref.decode must accept and reproduce every file it emits (./check --setup)", "lexical variants preserve the infoset; whitespace inside numeric leaves, comments inside leaf values and DTDs are excluded"]
     return finish(prop, tier, seed, level(prop), res, rule, res.stats.get("files_compared", 0), res.stats.get("files_compared", 0), assumptions, t0, extra)
@@ -640,7 +640,7 @@ def c18(prop, tier, seed):
         res.merge(run_shards(b, "roundtrip", ["--mode", "c18"], cases, secs, seed, tier, wd, "extattr", prop))
     finally:
         cleanup(wd)
-    rule = ("(a) scenes encoded twice with the same layout by the independent encoder: once plain, once with 1-5 elements of a foreign namespace inserted at 14 kinds of sites outside prototypes (before/after/between standard siblings at root, data3D, point cloud and image level), with local names equal to standard names (52 names) or random, as leaves of every type, vectors, structures and structures mimicking whole standard subtrees, in three namespace forms (prefix declared on the root, prefix declared locally, default namespace redeclared on the element), plus foreign attributes - also named like standard attributes (fileOffset, length, recordCount, type ...) in front of or behind the standard ones - on the root and on standard elements; the reader's dumps (minus XML text, header lengths, extension list) must be identical; "
+    rule = ("(a) scenes encoded twice with the same layout by the independent encoder: once plain, once with 1-5 elements of a foreign namespace inserted at 14 kinds of sites outside prototypes (before/after/between standard siblings at root, data3D, point cloud and image level), with local names equal to standard names (52 names) or random, as leaves of every type, vectors, structures, structures mimicking whole standard subtrees and runs of 3-520 flat empty elements whose attribute values contain '>', '/>', '-->', ']]>' or the other kind of quote, in three namespace forms (prefix declared on the root, prefix declared locally, default namespace redeclared on the element), plus foreign attributes - also named like standard attributes (fileOffset, length, recordCount, type ...) in front of or behind the standard ones - on the root and on standard elements; the reader's dumps (minus XML text, header lengths, extension list) must be identical; "
             "(a2) pairs that differ only in where the prefix of an extension attribute is declared (root / vectorChild / points / prototype / the record itself); (b) writer programs whose prototypes carry extension attributes over all accepted names and namespaces, half of them named like standard attributes; prototype, values and all standard descriptors must read back unchanged; non-trivial = pair compared / program read back; distinct = distinct (site, name class, element kind) cells + pairs")
     distinct = len([k for k in cover if k.startswith("site:")]) + res.stats.get("pairs_compared", 0)
     extra = {"pairs_compared": res.stats.get("pairs_compared", 0), "insertion_cells": len([k for k in cover if k.startswith("site:")]), "ext_attr_programs": res.stats.get("programs", 0), "ext_attrs_with_standard_names": res.cover.get("ext-attr:standard-name", 0), "ext_attrs_other": res.cover.get("ext-attr:other-name", 0)}
@@ -765,8 +765,8 @@ def c20(prop, tier, seed):
         res.samples = [{"xyz_file": j[0], "lines": j[1], "colour_sweep": j[2]} for j in jobs[:2]] + [{"e57_file": os.path.basename(f)} for f in allf[:2]]
     finally:
         cleanup(wd)
-    rule = ("the five tools are built from the workspace and run as child processes. XYZ files (0..20000 lines; single-space separated; coordinates = random finite f32 bit patterns, extremes, subnormals, +-0 printed with 9 significant digits; colours incl. a sweep over all 256 values; extra columns, leading space, blank and short lines) go through e57-from-xyz | e57-to-xyz and must come back numerically unchanged and in order; "
-            "E57 files from the independent encoder and from the crate's writer, intact and with one flipped bit: e57-check-crc's exit status must equal the verdict of the independent CRC (single files, and folders mixing intact and damaged files in several directory orders), e57-extract-xml's stdout must equal the XML section located by the independent decoder, e57-unpack's metadata.xml / CSV values / image files must equal what the library reports (harness observation log); non-trivial = tool run judged; distinct = distinct input files")
+    rule = ("the five tools are built from the workspace and run as child processes. XYZ files (0..20000 lines; single-space separated; coordinates = random finite f32 bit patterns, extremes, subnormals, +-0 printed with 9 significant digits; colours incl. a sweep over all 256 values and files opening with a run of black / white / one repeated colour; extra columns, leading space, blank and short lines) go through e57-from-xyz | e57-to-xyz and must come back numerically unchanged and in order; "
+            "E57 files from the independent encoder and from the crate's writer, intact and with one flipped bit: e57-check-crc's exit status must equal the verdict of the independent CRC (single files, and folders mixing intact and damaged files in several directory orders), e57-extract-xml's stdout must equal the XML section located by the independent decoder (incl. XML without line breaks, without a final newline and with 1500 trailing spaces), e57-unpack's metadata.xml / CSV values / image files must equal what the library reports (harness observation log); non-trivial = tool run judged; distinct = distinct input files")
     assumptions = ["XYZ lines with fewer than six columns are skipped (documented); colour is columns 4-6", "check-crc is only run on files of whole-page size", "CSV numbers are compared numerically with the exact bit patterns (textual form is the tools' choice)"]
     extra = {"xyz_points_compared": res.stats.get("xyz_points_compared", 0), "colour_values_covered": cover.get("colour_values_covered", 0), "tool_runs": res.stats.get("tool_runs", 0), "e57_inputs": {k[11:]: v for k, v in cover.items() if k.startswith("e57_inputs:")}}
     return finish(prop, tier, seed, level(prop), res, rule, res.stats.get("xyz_runs", 0) + res.stats.get("e57_files", 0), res.stats.get("tool_runs", 0), assumptions, t0, extra)
